@@ -194,8 +194,11 @@ func (h *Hub) Run() {
 				delete(h.connections, conn)
 				h.connMu.Unlock()
 
-				close(conn.send)
+				// Leave every room before the send queue is closed: a room
+				// must never hold a connection whose queue is closed.
+				conn.markDisconnected()
 				h.roomManager.RemoveConnectionFromAllRooms(conn)
+				close(conn.send)
 				h.metrics.DecrementConnections()
 				h.metrics.UnregisterConnection(conn.ID)
 
@@ -244,9 +247,10 @@ func (h *Hub) Run() {
 				select {
 				case conn.send <- message:
 				default:
-					close(conn.send)
 					delete(h.connections, conn)
+					conn.markDisconnected()
 					h.roomManager.RemoveConnectionFromAllRooms(conn)
+					close(conn.send)
 				}
 			}
 			h.connMu.Unlock()
